@@ -329,6 +329,20 @@ def global_cases():
     counter = 'var Count = 0\nfunc Next() int {\n\tCount = Count + 1\n\treturn Count\n}\n'
     fa = 'import c "lib/counter.tsh"\nvar id = c.Next()\nfunc Id() int {\n\treturn id\n}\n'
     fb = 'import c "lib/counter.tsh"\nvar ticket = c.Next()\nfunc Ticket() int {\n\treturn ticket\n}\n'
+    # functions with an EMPTY body are functions: defined in the script, callable from every file (round 9: C09-B, empty functions not
+    # emitted while the calls stayed - "command not found")
+    hooks = 'var Steps = 0\nfunc Before() {\n}\nfunc After() {\n}\nfunc trace(msg string) {\n}\nfunc Step(name string) {\n\ttrace(name)\n\tSteps = Steps + 1\n\tprint("step", name, Steps)\n}\n'
+    out.append(("empty-functions-of-import", {"main.tsh": 'import hooks "hooks.tsh"\nhooks.Before()\nhooks.Step("one")\nhooks.Step("two")\nhooks.After()\n', "hooks.tsh": hooks},
+                "step one 1\nstep two 2\n"))
+    out.append(("empty-functions-of-main", {"main.tsh": 'func nop() {\n}\nfunc nop2(a int, b string) {\n}\nfunc run() {\n\tnop()\n\tnop2(1, "x")\n\tprint("ran")\n}\nnop()\nrun()\nnop2(2, "y")\n'},
+                "ran\n"))
+    # a function's own variable with the name of a global of its (imported) file is the function's variable from then on (round 9:
+    # C10-B, the lookup tried the file-prefixed name before the plain one)
+    shadow = ('total := 1\nCount := 10\nfunc Bump() int {\n\ttotal, step := 5, 6\n\ttotal = total + step\n\ttotal++\n\treturn total\n}\n'
+              'func Twice() int {\n\tCount, extra := 2, 3\n\tCount += extra\n\tfor i := 0; i < 2; i++ {\n\t\tCount = Count * 2\n\t}\n\treturn Count\n}\n'
+              'func Get() int {\n\treturn total * 100 + Count\n}\n')
+    out.append(("local-shadows-global-of-import", {"main.tsh": 'import l "lib.tsh"\nprint(l.Bump(), l.Twice(), l.Get())\n', "lib.tsh": shadow}, "12 20 110\n"))
+    out.append(("local-shadows-global-of-main", {"main.tsh": shadow + 'print(Bump(), Twice(), Get())\n'}, "12 20 110\n"))
     out.append(("shared-public-global-three-paths", {"main.tsh": 'import (\n\ta "a.tsh"\n\tb "b.tsh"\n\tc "lib/counter.tsh"\n)\nprint(a.Id())\nprint(b.Ticket())\nprint(c.Next())\n',
                                                      "a.tsh": fa, "b.tsh": fb, "lib/counter.tsh": counter}, "1\n2\n3\n"))
     out.append(("shared-public-global-two-aliases", {"main.tsh": 'import (\n\tc1 "counter.tsh"\n\tc2 "counter.tsh"\n)\nprint(c1.Next(), c2.Next(), c1.Next())\n',
@@ -379,7 +393,7 @@ def run(res, b, tier, seed):
         if c.meta["expect"] is None:
             if cls != "ERR":
                 fails.append((c, "negative-accepted", dict(cls=cls, case=c.id, stdout=got[c.id]["stdout"].decode("latin1")[:200] if c.id in got else None)))
-        elif cls != "OK" or got[c.id]["stdout"].decode("latin1") != c.meta["expect"] or got[c.id]["status"] != 0:
+        elif cls != "OK" or got[c.id]["stdout"].decode("latin1") != c.meta["expect"] or got[c.id]["status"] != 0 or got[c.id].get("stderr", b"") != b"":
             fails.append((c, "alias-resolution", dict(cls=cls, case=c.id, want=c.meta["expect"], stdout=got[c.id]["stdout"].decode("latin1")[:200] if c.id in got else None)))
     for c in cases:
         if c.out.get("BASH", ("", ""))[0] == "OK":
